@@ -57,6 +57,8 @@ func init() {
 		{"C07", "adder", props.C07adder},
 		{"C05", "adder", props.C07adder},
 		{"C17", "garble", props.C01},
+		{"C12", "signedread", props.SignedReads},
+		{"C03", "signedread", props.SignedReads},
 		{"C09", "levels", props.LevelsKeepOrder},
 		{"C10", "levels", props.LevelsKeepOrder},
 		{"C20", "voleext", props.VoleExtensionCounts},
